@@ -130,10 +130,11 @@ class Repo:
                     self.renames_undone.append(f"module-level name {a} -> {b}")
             self._undo_function_renames(ref)
             if ref and not os.environ.get("SA_NO_INLINE"):
-                from .inline import undo_extractions, undo_constant_extractions, undo_pulled_up_methods, undo_find_first_helpers, undo_cross_module_expression_helpers
+                from .inline import undo_extractions, undo_constant_extractions, undo_pulled_up_methods, undo_find_first_helpers, undo_cross_module_expression_helpers, undo_lifted_closures
                 from .normalise import normalise as _norm
                 before = len(self.renames_undone)
                 undo_constant_extractions({m.name: m.tree for m in self.modules.values()}, specials.get("__modnames__", {}), self.renames_undone)
+                undo_lifted_closures({m.name: m.tree for m in self.modules.values()}, set(ref), self.renames_undone)     # before helpers are inlined
                 undo_extractions({m.name: m.tree for m in self.modules.values()}, set(ref), self.renames_undone)
                 undo_pulled_up_methods({m.name: m.tree for m in self.modules.values()}, set(ref), self.renames_undone)
                 undo_find_first_helpers({m.name: m.tree for m in self.modules.values()}, set(ref), self.renames_undone)
